@@ -656,6 +656,21 @@ class Interp:
         only facts entailed by every state survive."""
         if namefn is None:
             namefn = lambda k: 'J:%s:%s' % (tag, self._locname(k))
+        # identical abstract states (paths that differ only in their effects) are joined once
+        if len(states) > 2:
+            seen_sig = set()
+            uniq = []
+            for s_ in states:
+                try:
+                    sig = (frozenset(s_.mem.items()), frozenset(s_.facts.iv.items()), frozenset(s_.facts.ub.items()),
+                           frozenset(s_.facts.ex.items()), frozenset(s_.pnull.items()), frozenset(s_.ghost.items()))
+                except TypeError:
+                    sig = id(s_)
+                if sig in seen_sig and s_ is not prev:
+                    continue
+                seen_sig.add(sig)
+                uniq.append(s_)
+            states = uniq
         s0 = states[0]
         res = State()
         res.stack = s0.stack
